@@ -182,6 +182,50 @@ def replay_maf(rep: Report, cases: list, rng: random.Random, budget: int):
             jax.clear_caches()
 
 
+def replay_flow_layers(rep: Report, rng: random.Random, count: int):
+    """The masked autoregressive layers INSIDE the premade flow (flowjax.flows.masked_autoregressive_flow): the factory
+    post-processes the layers it builds, so the structure has to survive that too, for weights that moved after
+    construction.  Layer 0 is taken out of the stacked Scan with the public pytree structure."""
+    from flowjax import distributions as ds
+    from flowjax import flows
+    from flowjax.wrappers import unwrap
+    for i in range(count):
+        dim = rng.randrange(2, 5)
+        cond = rng.choice([None, 2])
+        tr = rng.choice(["affine", "spline"])
+        cfg = {"factory": "masked_autoregressive_flow", "dim": dim, "cond_dim": cond, "transformer": tr}
+        try:
+            kw = {}
+            if tr == "spline":
+                from flowjax.bijections import RationalQuadraticSpline
+                kw["transformer"] = RationalQuadraticSpline(knots=3, interval=3)
+            flow = flows.masked_autoregressive_flow(jr.key(i) if False else jr.PRNGKey(i), base_dist=ds.Normal(jnp.zeros(dim)), cond_dim=cond,
+                                                    flow_layers=2, nn_width=rng.choice([dim, dim + 2]), nn_depth=rng.choice([1, 2]), **kw)
+            scan = flow.bijection.bijection if type(flow.bijection).__name__ == "Invert" else flow.bijection
+            layer0 = jax.tree_util.tree_map(lambda l: l[0] if eqx.is_array(l) else l, scan.bijection)
+            maf = layer0.bijections[0] if type(layer0).__name__ == "Chain" else layer0
+            mlp = maf.masked_autoregressive_mlp
+            # every floating leaf of the conditioner set to a positive value AFTER construction
+            leaves, td = jax.tree_util.tree_flatten(mlp)
+            mlp_pos = jax.tree_util.tree_unflatten(td, [jnp.full(l.shape, 0.37 + 0.01 * j) if eqx.is_inexact_array(l) else l for j, l in enumerate(leaves)])
+            net = unwrap(mlp_pos)
+            nin = dim + (cond or 0)
+            J = np.asarray(jax.jacobian(net)(jnp.asarray(0.5 + np.arange(nin) * 0.25))) != 0
+        except Exception as e:  # noqa: BLE001
+            rep.violation({"layer": "flow layer", **cfg, "error": type(e).__name__}, f"{cfg}: {type(e).__name__}: {str(e)[:200]}")
+            continue
+        npar = J.shape[0] // dim
+        allowed = np.zeros_like(J)
+        for o in range(J.shape[0]):
+            allowed[o, : o // npar] = True
+            allowed[o, dim:] = True
+        rep.count(1, ("flow-layer", json.dumps(cfg, sort_keys=True), i))
+        if (J & ~allowed).any():
+            rep.violation({"layer": "masked autoregressive layer inside the flow factory", **cfg, "what": "forbidden dependency"},
+                          f"masked_autoregressive_flow{cfg}: with the conditioner weights set after construction, the transformer "
+                          f"parameters of some coordinate depend on an input that is not before it: {J.astype(int).tolist()}")
+
+
 def replay_coupling(rep: Report, rng: random.Random, count: int):
     from flowjax.bijections import Coupling
     from flowjax.wrappers import unwrap
@@ -299,6 +343,7 @@ def main():
     cases = model_check(rep, thorough)
     mcases = cases.get("MC_Masks_full.cfg") or cases.get("MC_Masks_small.cfg") or []
     replay_maf(rep, mcases, rng, 1260 if thorough else 50)
+    replay_flow_layers(rep, rng, 40 if thorough else 10)
     replay_coupling(rep, rng, 120 if thorough else 25)
     replay_block(rep, rng, 100 if thorough else 20)
     replay_block_masks(rep, cases.get("MC_BlockMasks.cfg", []))
